@@ -417,7 +417,7 @@ func TestVerif_C30(t *testing.T) {
 		})
 		r.Bound("tasks_done", fmt.Sprintf("%d/%d", done, len(tasks)))
 		r.OutcomeN("positions_queried", tot.query)
-		r.OutcomeN("valid_destinations(x modes)", tot.valid)
+		r.OutcomeN("valid_destinations", tot.valid)
 		r.OutcomeN("codes_served_from_cache", tot.cached)
 	})
 }
